@@ -9,7 +9,7 @@ def run(ctx):
     quick = ctx.tier == "quick"
     ctx.rule = ("descriptor space {count 1/2/5/40} x {numeric, date, time, datetime} x {distinct, all equal, unsorted} x 8 span classes (0, 7-9 ms, 1 s, "
                 "a day, across a month end, leap day, year end, a century) x options {omitted, empty, partial} x direction x algorithm x bounds x ticks "
-                "(every n-th descriptor, seeded concretisation), both back-ends, plus one 150-label and one 400-label conflict cluster; "
+                "(every n-th descriptor, seeded concretisation), both back-ends, plus conflict clusters of 150 and 200 labels (200 is the edge of the claim) and one of 400 (beyond it); "
                 "non-trivial = every descriptor; distinct by descriptor")
     ctx.assumptions += ["labels carry explicit widths (no LaTeX in the sandbox)",
                         "datetime.time inputs are combined with today's date by the code; they are exercised but not compared across processes"]
@@ -22,9 +22,9 @@ def run(ctx):
         job = {"seed": ctx.seed * 7 + k, "mode": "total", "stride": stride, "offset": (k * (stride // core.NCPU) + ctx.seed) % stride,
                "reps": 1 if quick else 2}
         if k == 0:
-            job["clusters"] = [[150, "c150"], [400, "c400"]]
-        if k == 1 and not quick:
-            job["clusters"] = [[190, "c150"]]
+            job["clusters"] = [[200, "c200"], [400, "c400"]]      # 200: the edge of the claim; 400: beyond it (known finding)
+        if k == 1:
+            job["clusters"] = [[150, "c150"]] if quick else [[190, "c190"], [150, "c150"], [199, "c199"]]
         jobs.append({"script": "d_timeline.py", "stdin_obj": job})
     recs = []
     for out in core.run_drivers_parallel(jobs):
